@@ -273,6 +273,11 @@ class Run:
                 # the harness names every field the semantic model lists: a field missing from the emitted struct
                 self.violations.append({'slice': 'engine-b', 'template': cfg['template'], 'query': 'emitted-struct-has-field:%s.%s' % (m609.group(2), m609.group(1)),
                                         'args': [to_i64(x) for x in ws[0].args], 'expected': 'field present in the emitted struct', 'native': txt[:1200]})
+            elif _re.search(r'error\[E06(03|16|24)\][^\n]*\n\s*--> src/lib\.rs', txt):
+                # the probe outside the emitted module names everything the semantic model marks public
+                self.violations.append({'slice': 'engine-b', 'template': cfg['template'], 'query': 'resolved-public-item-is-emitted-public', 'args': [to_i64(x) for x in ws[0].args],
+                                        'expected': 'every item / field / function that is public in the resolved model is reachable from outside the emitted module',
+                                        'native': txt[:1500]})
             elif 'cannot transmute between types of different sizes' in txt or 'E0512' in txt:
                 self.violations.append({'slice': 'engine-b', 'template': cfg['template'], 'query': 'emitted-size-check-compiles', 'args': [to_i64(x) for x in ws[0].args],
                                         'expected': 'rustc accepts transmute::<[u8; size], T>', 'native': txt[:1500]})
